@@ -425,6 +425,10 @@ class Interp(Folder):
             return e.id
         if e.id in self.BUILTINS:
             return self.BUILTINS[e.id]
+        if e.id == "type":
+            return _type_fn
+        if e.id == "abs":
+            return abs
         if e.id.endswith("Error") or e.id == "Exception":
             return ExcCtor(e.id)
         self.err(e, f"unbound name `{e.id}`")
@@ -441,6 +445,8 @@ class Interp(Folder):
     def ev_Attribute(self, e, env):
         v = self.ev(e.value, env)
         a = e.attr
+        if isinstance(v, TypeCtor) and a in ("__name__", "__qualname__"):
+            return v.cls
         if isinstance(v, _Super):
             mro = v.obj.cls.mro()
             after = mro[mro.index(v.cls) + 1:] if v.cls in mro else []
@@ -567,6 +573,7 @@ class Interp(Folder):
                 return Term("op:" + type(op).__name__, (left, right))
             if isinstance(op, (ast.Is, ast.IsNot, ast.Eq, ast.NotEq)) and (
                 (isinstance(left, tuple) and left[:1] == ("type-of",)) or (isinstance(right, tuple) and right[:1] == ("type-of",))
+                or (isinstance(left, TypeCtor) and isinstance(right, TypeCtor))
             ):
                 t = self._type_eq(left, right)
                 if t is None:
@@ -728,6 +735,8 @@ class Interp(Folder):
                 raise PyRaise("ValueError", "zip() arguments have different lengths")
             return list(zip(*seqs))
         if f is _type_fn:
+            if args and isinstance(args[0], DT):
+                return TypeCtor(args[0].cls)  # the class object of a data type value (usable as a dictionary key)
             return ("type-of", args[0] if args else None)
         if getattr(f, "__name__", "") == "_itertools_product":
             import itertools as _it
@@ -743,7 +752,7 @@ class Interp(Folder):
             for x in it:
                 acc = self.call(fn, [acc, x], {}, node, env)
             return acc
-        if f in (tuple, list, set, dict, sum, len, range, max, min, sorted, frozenset, any, all, enumerate, str, int, bool, float):
+        if f in (tuple, list, set, dict, sum, len, range, max, min, sorted, frozenset, any, all, enumerate, str, int, bool, float, abs):
             if f in (max, min, sorted) and "key" in kwargs and isinstance(kwargs["key"], Func):
                 kf = kwargs["key"]
                 kwargs = dict(kwargs, key=lambda x: self.call(kf, [x], {}, node, env))
